@@ -159,6 +159,8 @@ class SessState:
         self.in_cmd = None  # (kind, uid_mode) of the command in progress
         self.flag_reports = {}  # id(MMsg) -> last reported norm flags (since last clear)
         self.dead = False
+        self.hiwater = -1  # highest arrival index ever in this view
+        self.broken = False  # a C01 legality clause already failed for this view
 
 
 class History:
@@ -183,6 +185,8 @@ class History:
         self.first_body = {}  # (box, uidvalidity, uid) -> (body, idate)
         self.ledger = {}  # (box, uidvalidity, uid) -> tag
         self.known = {}  # box -> {(uidvalidity, uid): (tag, body)} observer cache
+        self.issuer = None
+        self.cross = 0  # EXISTS/EXPUNGE received by a session other than the issuer
         self.need_resync = set()  # boxes whose model must adopt reality (ambiguous step)
 
     # ---- reporting -------------------------------------------------------
@@ -219,6 +223,13 @@ class History:
         for st in list(self.ss.values()):
             self._replay(st)
 
+    def vv(self, st: SessState, clause: str, detail: str, sig: str = ""):
+        """Report a view-legality violation once per selected view."""
+        if st.broken:
+            return
+        st.broken = True
+        self.v(clause, detail, sig)
+
     def _replay(self, st: SessState):
         buf = st.sess.stream
         if st.parsed_to >= len(buf):
@@ -233,29 +244,32 @@ class History:
         for r in resps:
             if r.kind != "untagged":
                 continue
+            if r.name in ("EXISTS", "EXPUNGE") and box is not None and st.name != self.issuer:
+                self.cross += 1
             if r.name == "EXISTS" and box is not None:
                 n = r.num
                 if n < len(st.view):
-                    self.v("C01.exists.shrinks", f"session {st.name}: '* {n} EXISTS' but its view has {len(st.view)} messages (no EXPUNGE sent)", "")
+                    self.vv(st, "C01.exists.shrinks", f"session {st.name}: '* {n} EXISTS' but its view has {len(st.view)} messages (no EXPUNGE sent)", "")
                     # resynchronise the harness view so later clauses stay meaningful
                     del st.view[n:]
                 elif n > len(st.view):
-                    last = max((m.arrival for m in st.view), default=-1)
+                    last = max([m.arrival for m in st.view] + [st.hiwater])
                     cand = [m for m in box.history if m.arrival > last]
                     need = n - len(st.view)
                     if len(cand) < need:
-                        self.v("C01.exists.phantom", f"session {st.name}: '* {n} EXISTS' announces {need} new message(s) but only {len(cand)} were ever added", "")
+                        self.vv(st, "C01.exists.phantom", f"session {st.name}: '* {n} EXISTS' announces {need} new message(s) but only {len(cand)} were ever added", "")
                     st.view.extend(cand[:need])
+                    st.hiwater = max([st.hiwater] + [m.arrival for m in cand[:need]])
             elif r.name == "EXPUNGE" and box is not None:
                 n = r.num
                 if st.in_cmd and st.in_cmd[0] in ("FETCH", "STORE", "SEARCH") and not st.in_cmd[1]:
-                    self.v("C01.expunge.during", f"session {st.name}: '* {n} EXPUNGE' sent while its non-UID {st.in_cmd[0]} was in progress", st.in_cmd[0])
+                    self.vv(st, "C01.expunge.during", f"session {st.name}: '* {n} EXPUNGE' sent while its non-UID {st.in_cmd[0]} was in progress", st.in_cmd[0])
                 if n < 1 or n > len(st.view):
-                    self.v("C01.expunge.range", f"session {st.name}: '* {n} EXPUNGE' but its view has {len(st.view)} messages", "")
+                    self.vv(st, "C01.expunge.range", f"session {st.name}: '* {n} EXPUNGE' but its view has {len(st.view)} messages", "")
                 else:
                     m = st.view.pop(n - 1)
                     if m.alive:
-                        self.v("C01.expunge.live", f"session {st.name}: '* {n} EXPUNGE' removes view cell bound to {m.tag} (uid {m.uid}) which still exists", "")
+                        self.vv(st, "C01.expunge.live", f"session {st.name}: '* {n} EXPUNGE' removes view cell bound to {m.tag} (uid {m.uid}) which still exists", "")
             elif r.name == "FETCH" and box is not None:
                 n = r.num
                 try:
@@ -263,7 +277,7 @@ class History:
                 except wire.Malformed:
                     continue
                 if n < 1 or n > len(st.view):
-                    self.v("C01.fetch.range", f"session {st.name}: '* {n} FETCH' but its view has {len(st.view)} messages", "")
+                    self.vv(st, "C01.fetch.range", f"session {st.name}: '* {n} FETCH' but its view has {len(st.view)} messages", "")
                     continue
                 m = st.view[n - 1]
                 if "UID" in items:
@@ -271,7 +285,7 @@ class History:
                     if m.uid is None:
                         m.uid = u
                     elif m.uid != u:
-                        self.v("C01.fetch.uid-mismatch", f"session {st.name}: '* {n} FETCH (UID {u})' but cell {n} of its view is {m.tag} with uid {m.uid}", "")
+                        self.vv(st, "C01.fetch.uid-mismatch", f"session {st.name}: '* {n} FETCH (UID {u})' but cell {n} of its view is {m.tag} with uid {m.uid}", "")
                 if "FLAGS" in items:
                     st.flag_reports[id(m)] = (norm_flags(items["FLAGS"]), m)
 
@@ -302,9 +316,10 @@ class History:
 
     # ---- steps -------------------------------------------------------------
     async def run_cmd(self, st: SessState, line: bytes, kind: str, uid_mode=False):
-        st.in_cmd = (kind, uid_mode)
         # bytes already in the stream belong to earlier commands
         self._replay(st)
+        st.in_cmd = (kind, uid_mode)
+        self.issuer = st.name
         r = await st.sess.cmd(line)
         self.res.steps += 1
         self.note(s=st.name, c=line[:90].decode("latin-1"), r=r.status, t=round(r.vdur, 2))
@@ -334,12 +349,36 @@ class History:
         v = st.view
         return len(v) <= len(live) and all(a is b for a, b in zip(v, live)) and all(m.origin == "deliver" for m in live[len(v):])
 
+    async def bind_unknown_uids(self, name: str):
+        """Deliveries have no known UID until somebody reveals it.  Before a UID
+        set is generated for a mailbox, let the observer reveal them (this also
+        makes the server notice the delivery, as any client's command would)."""
+        box = self.model.boxes[name]
+        if all(m.uid is not None for m in box.msgs):
+            return
+        info = await self.observe(name)
+        self.replay_streams()
+        if info is None:
+            return
+        if [x["tag"] for x in info["msgs"]] == [m.tag for m in box.msgs]:
+            for x, m in zip(info["msgs"], box.msgs):
+                if m.uid is None:
+                    m.uid = x["uid"]
+
     def resolve(self, st: SessState, elts, uid_mode: bool):
         box = self.model.boxes[st.sel]
         unknown_tail = any(m.uid is None for m in box.msgs)
         return resolve_set(elts, len(st.view), uid_mode, self.live_uids(box), [m.uid for m in st.view], unknown_tail)
 
-    def addressed(self, st: SessState, spec, uid_mode: bool):
+    def in_sync_after_flush(self, st: SessState) -> bool:
+        """Would the view equal the server's list once its pending EXPUNGEs
+        (cells bound to messages that no longer exist) have been delivered?"""
+        box = self.model.boxes[st.sel]
+        live = box.msgs
+        v = [m for m in st.view if m.alive]
+        return len(v) <= len(live) and all(a is b for a, b in zip(v, live)) and all(m.origin in ("deliver",) or m.arrival > st.hiwater for m in live[len(v):])
+
+    def addressed(self, st: SessState, spec, uid_mode: bool, flushes: bool = False):
         """Messages the set denotes per RFC 3501 at execution time: by then the
         server has noticed every delivery (it resyncs before running a command),
         so for a session in sync the list is `box.msgs`; `*` is its last message.
@@ -351,7 +390,8 @@ class History:
             INF = 10**12
 
             def val(m):
-                return m.uid if m.uid is not None else INF
+                # unknown uids (deliveries) are larger than every known one and ascend with arrival
+                return m.uid if m.uid is not None else INF + m.arrival
 
             star = val(lst[-1]) if lst else None
             out = []
@@ -365,7 +405,7 @@ class History:
                     if lo <= val(m) <= hi and m not in out:
                         out.append(m)
             return sorted(out, key=lambda m: m.arrival)
-        if not self.in_sync(st):
+        if not self.in_sync(st) and not (flushes and self.in_sync_after_flush(st)):
             return None
         n = len(lst)
         seqs = set()
@@ -428,6 +468,7 @@ class Runner(History):
         st.parsed_to = len(st.sess.writer.buf)
         st.sel = name
         st.examine = examine
+        st.broken = False
         st.flag_reports = {}
         if n is None:
             self.v("C01.select.no-exists", f"SELECT {name}: no EXISTS response", "")
@@ -441,6 +482,8 @@ class Runner(History):
         if unnoticed:
             self.v("C01.select.count", f"SELECT {name}: EXISTS {n} but {len(box.msgs)} messages exist ({[m.tag for m in unnoticed]} not counted)", "")
         st.view = list(box.msgs[:n])
+        # everything that arrived before the snapshot is either in it or gone
+        st.hiwater = (box.msgs[n].arrival - 1) if n < len(box.msgs) else (len(box.history) - 1)
         self.replay_streams()
         return r
 
@@ -604,7 +647,8 @@ class Runner(History):
         view = st.view
         ok = len(view) <= len(live) and all(a is b for a, b in zip(view, live)) and all(m.origin == "deliver" for m in live[len(view):])
         if not ok:
-            self.v(
+            self.vv(
+                st,
                 "C01.sync.view-differs",
                 f"after {what} session {st.name}'s replayed view of {st.sel} is {[m.tag for m in view]} but the mailbox holds {[m.tag for m in live]}",
                 what,
@@ -623,6 +667,8 @@ class Runner(History):
                 return None
         box = self.model.boxes[st.sel]
         uid_mode = bool(s.get("uid"))
+        if uid_mode:
+            await self.bind_unknown_uids(st.sel)
         rs = self.resolve(st, s["set"], uid_mode)
         if rs is None:
             return None
@@ -670,6 +716,8 @@ class Runner(History):
                 return None
         box = self.model.boxes[st.sel]
         uid_mode = bool(s.get("uid"))
+        if uid_mode:
+            await self.bind_unknown_uids(st.sel)
         rs = self.resolve(st, s["set"], uid_mode)
         if rs is None:
             return None
@@ -712,6 +760,7 @@ class Runner(History):
         box = self.model.boxes[st.sel]
         uid_mode = bool(s.get("uid"))
         if uid_mode:
+            await self.bind_unknown_uids(st.sel)
             rs = self.resolve(st, s["set"], True)
             if rs is None:
                 return None
@@ -744,13 +793,16 @@ class Runner(History):
         box = self.model.boxes[st.sel]
         move = bool(s.get("move"))
         uid_mode = bool(s.get("uid"))
+        if uid_mode:
+            await self.bind_unknown_uids(st.sel)
         rs = self.resolve(st, s["set"], uid_mode)
         if rs is None:
             return None
         text, den = rs
         dsti = s["dst"] % (len(MBOXES) + 1)
         dname = MBOXES[dsti] if dsti < len(MBOXES) else "nonexistent"
-        targets = self.addressed(st, den, uid_mode)
+        # COPY/MOVE deliver the session's pending notifications before they run
+        targets = self.addressed(st, den, uid_mode, flushes=True)
         ambiguous = targets is None
         targets = [m for m in (targets or []) if m.alive]
         cmd = "MOVE" if move else "COPY"
